@@ -6,8 +6,9 @@
    interleaved ReadFull/Close operations; allocation discipline tied to Gen/CompressReaders.v).
    The codecs are universally quantified functions with the single hypothesis
    `dec e (compress e p) = (p, EOF)`. *)
-From ReqV Require Import Lib.Bytes Gen.CompressLabels Gen.CompressReaders Model.Decode Model.DecodeSession
-  Proofs.DecodeProofs Proofs.DecodeSessionProofs.
+From ReqV Require Import Lib.Bytes Gen.CompressLabels Gen.CompressReaders Gen.DecodeSites Model.Decode
+  Model.DecodeSession Model.DecodeAttempts Proofs.DecodeProofs Proofs.DecodeSessionProofs
+  Proofs.DecodeAttemptsProofs.
 
 (* the transport asks for gzip exactly when compression is not disabled, the caller set neither
    Accept-Encoding nor Range, and the method is not HEAD - on all three stacks *)
@@ -39,10 +40,10 @@ Theorem C14_decoded_is_original :
   forall st c auto r e p sizes,
   r_cl r <> 0%Z ->
   wants_decode c auto (content_encoding (r_ce r)) = Some e ->
-  r_body r = Raw (compress e p) ->
+  r_body r = Raw (compress e p) -> r_short r = false ->
   Forall (fun n => 0 < n) sizes -> length p < length sizes ->
   let r' := respond st c auto false r in
-  fst (drain dec sizes (open_body (r_body r'))) = (p, Some EOF) /\
+  fst (drain dec sizes (open_resp r')) = (p, Some EOF) /\
   r_ce r' = [] /\ r_clh r' = [] /\ r_cl r' = (-1)%Z /\ r_unc r' = true /\
   r_other r' = r_other r.
 Proof. exact decoded_is_original. Qed.
@@ -101,9 +102,10 @@ Print Assumptions C14_read_size_independent.
 Theorem C14_decode_error_surfaces : forall (dec : codec) st c auto r e sizes,
   r_cl r <> 0%Z ->
   wants_decode c auto (content_encoding (r_ce r)) = Some e ->
+  r_short r = false ->
   Forall (fun n => 0 < n) sizes ->
   length (s_data (dec e (wire_of (r_body r)))) < length sizes ->
-  fst (drain dec sizes (open_body (r_body (respond st c auto false r)))) =
+  fst (drain dec sizes (open_resp (respond st c auto false r))) =
     (s_data (dec e (wire_of (r_body r))), Some (s_end (dec e (wire_of (r_body r))))).
 Proof. exact decode_error_surfaces. Qed.
 Print Assumptions C14_decode_error_surfaces.
@@ -147,13 +149,114 @@ Print Assumptions C14_multi_line_is_a_list.
 Theorem C14_first_line_refuted : forall (compress : enc -> bytes -> bytes) (p : bytes),
   let c := {| q_disable := false; q_ae := []; q_range := []; q_head := false |} in
   let r := {| r_ce := [bs "gzip"; bs "gzip"]; r_clh := []; r_other := []; r_cl := (-1)%Z; r_unc := false;
-              r_body := Raw (compress Gzip (compress Gzip p)) |} in
+              r_body := Raw (compress Gzip (compress Gzip p)); r_short := false |} in
   forall st,
   (r_ce (respond_first_line st c false false r) = [] /\
    r_body (respond_first_line st c false false r) = Lazy Gzip (compress Gzip (compress Gzip p))) /\
   respond st c false false r = r.
 Proof. exact first_line_refuted. Qed.
 Print Assumptions C14_first_line_refuted.
+
+(* ---------- a body that ends (cleanly) short of its declared Content-Length ---------- *)
+
+(* the framing layer's length check survives every decision, on every stack: decoding a body does not
+   switch it off *)
+Theorem C14_length_check_survives_decoding : forall st c auto ended r,
+  r_short (respond st c auto ended r) = r_short r.
+Proof. exact length_check_survives. Qed.
+Print Assumptions C14_length_check_survives_decoding.
+
+(* a decoded body that ends short: for every coding (every reader waits for the end of the message below
+   it: withMessageEnd, gzip multistream) every read schedule ends with an error, never a clean io.EOF, after
+   exactly what is decodable from the bytes that arrived; wherever the cut falls (also on a member
+   boundary, also before the first byte), on every stack *)
+Theorem C14_short_decoded_is_error : forall (dec : codec) st c auto r e sizes,
+  r_cl r <> 0%Z ->
+  wants_decode c auto (content_encoding (r_ce r)) = Some e ->
+  r_short r = true ->
+  Forall (fun n => 0 < n) sizes ->
+  length (s_data (dec e (wire_of (r_body r)))) < length sizes ->
+  exists x, x <> EOF /\
+    fst (drain dec sizes (open_resp (respond st c auto false r))) =
+      (s_data (dec e (wire_of (r_body r))), Some x).
+Proof. exact short_decoded_is_error. Qed.
+Print Assumptions C14_short_decoded_is_error.
+
+(* an untouched body that ends short: the bytes that arrived, then the framing error *)
+Theorem C14_short_untouched_is_error : forall (dec : codec) st c auto ended r w sizes,
+  wants_decode c auto (content_encoding (r_ce r)) = None ->
+  r_body r = Raw w -> r_short r = true ->
+  Forall (fun n => 0 < n) sizes -> length w < length sizes ->
+  fst (drain dec sizes (open_resp (respond st c auto ended r))) = (w, Some ErrShort).
+Proof. exact short_untouched_is_error. Qed.
+Print Assumptions C14_short_untouched_is_error.
+
+(* every reader waits for the end of the message below it *)
+Theorem C14_every_reader_meets_the_message_end : forall e, probes_past_end e = true.
+Proof. exact every_reader_meets_the_message_end. Qed.
+Print Assumptions C14_every_reader_meets_the_message_end.
+
+(* ... which is what the source says (table regenerated on every run): each constructor named by
+   compress.NewCompressReader returns its reader wrapped in withMessageEnd *)
+Theorem C14_readers_wrapped_with_message_end :
+  reader_constructors =
+  [ (bs "NewBrotliReader", bs "withMessageEnd(&BrotliReader{Body: body})");
+    (bs "NewDeflateReader", bs "withMessageEnd(&DeflateReader{Body: body})");
+    (bs "NewGzipReader", bs "withMessageEnd(&GzipReader{Body: body})");
+    (bs "NewZstdReader", bs "withMessageEnd(&ZstdReader{Body: body})") ].
+Proof. exact readers_wait_for_the_message_end. Qed.
+Print Assumptions C14_readers_wrapped_with_message_end.
+
+(* a rewrite that stops measuring decoded bodies against the declared length (NOT the code) hands out
+   the first gzip member of a body cut on the member boundary with a clean io.EOF; the code: ErrShort *)
+Theorem C14_unchecked_rewrite_refuted :
+  let c := {| q_disable := false; q_ae := []; q_range := []; q_head := false |} in
+  fst (drain id_codec0 [9; 9] (open_resp (rewrite_unchecked r_cut_example (Lazy Gzip (bs "aaaa"))))) =
+    (bs "aaaa", Some EOF) /\
+  fst (drain id_codec0 [9; 9] (open_resp (respond H2 c false false r_cut_example))) =
+    (bs "aaaa", Some ErrShort).
+Proof. exact unchecked_rewrite_refuted. Qed.
+Print Assumptions C14_unchecked_rewrite_refuted.
+
+(* http2: the length check is armed once, from the declared length, before the decode branch, and only
+   counted down afterwards (table regenerated from internal/http2/transport.go on every run) *)
+Theorem C14_h2_length_check_armed_once :
+  h2_bytes_remain_assignments =
+  [(bs "handleResponse", bs "=", bs "bodyLength"); (bs "Read", bs "-=", bs "int64(n)")].
+Proof. exact h2_length_check_armed_once. Qed.
+Print Assumptions C14_h2_length_check_armed_once.
+
+(* ---------- one request, several attempts (Model/DecodeAttempts.v) ---------- *)
+
+(* a transport-level re-send, or the caller sending the same request object again: any number of
+   attempts, each asks (or not) and sends exactly what the first does, the caller's request is unchanged *)
+Theorem C14_every_attempt_is_a_first_attempt : forall st n c,
+  run_attempts (attempt st) n c = (repeat (asked_gzip st c, sent_accept_encoding st c) n, c).
+Proof. exact attempts_stable. Qed.
+Print Assumptions C14_every_attempt_is_a_first_attempt.
+
+(* so the answer to attempt k is decoded or left alone exactly like the answer to a first attempt *)
+Theorem C14_answer_to_a_retry_treated_alike : forall st n c auto ended r,
+  respond st (snd (run_attempts (attempt st) n c)) auto ended r = respond st c auto ended r.
+Proof. exact attempts_respond. Qed.
+Print Assumptions C14_answer_to_a_retry_treated_alike.
+
+(* what `attempt` assumes is what the source says: the only Accept-Encoding written into a header map
+   goes into the per-attempt extra headers (table regenerated on every run) *)
+Theorem C14_accept_encoding_written_per_attempt :
+  accept_encoding_header_writes = [(bs "transport.go", bs "roundTrip", bs "req.extraHeaders()")].
+Proof. exact accept_encoding_written_per_attempt. Qed.
+Print Assumptions C14_accept_encoding_written_per_attempt.
+
+(* writing it into the caller's header map (NOT the code): the second attempt does not ask and its gzip
+   answer comes back undecoded, Content-Encoding still set *)
+Theorem C14_own_header_write_refuted :
+  fst (run_attempts (attempt_own_header H1) 2 c_default) = [(true, bs "gzip"); (false, bs "gzip")] /\
+  snd (run_attempts (attempt_own_header H1) 1 c_default) <> c_default /\
+  respond H1 (snd (run_attempts (attempt_own_header H1) 1 c_default)) false false r_gzip = r_gzip /\
+  r_body (respond H1 (snd (run_attempts (attempt H1) 1 c_default)) false false r_gzip) = Lazy Gzip (bs "zzzz").
+Proof. exact own_header_refuted. Qed.
+Print Assumptions C14_own_header_write_refuted.
 
 (* ---------- several responses alive at the same time (Model/DecodeSession.v) ---------- *)
 
@@ -229,7 +332,8 @@ Theorem C14_readers_allocate_their_own_decoder :
   [ (bs "BrotliReader", bs "Read", bs "br", bs "brotli.NewReader(br.Body)");
     (bs "DeflateReader", bs "Read", bs "dr", bs "flate.NewReader(df.Body)");
     (bs "GzipReader", bs "Read", bs "zr", bs "gzip.NewReader(gz.Body)");
-    (bs "ZstdReader", bs "Read", bs "zr", bs "zstd.NewReader(zr.Body)");
+    (bs "ZstdReader", bs "Read", bs "src", bs "&bodyErrReader{r: zr.Body}");
+    (bs "ZstdReader", bs "Read", bs "zr", bs "zstd.NewReader(zr.src)");
     (bs "gzipReader", bs "Read", bs "zr", bs "gzip.NewReader(gz.body)") ].
 Proof. exact readers_allocate. Qed.
 Print Assumptions C14_readers_allocate_their_own_decoder.
@@ -269,7 +373,7 @@ Print Assumptions C14_roundtrip_hypothesis_satisfiable.
 Example C14_nonvacuous :
   let c := {| q_disable := false; q_ae := []; q_range := []; q_head := false |} in
   let r := {| r_ce := [bs "GZip"]; r_clh := [bs "33"]; r_other := [(bs "Content-Type", bs "text/plain")];
-              r_cl := 33%Z; r_unc := false; r_body := Raw (bs "....") |} in
+              r_cl := 33%Z; r_unc := false; r_body := Raw (bs "...."); r_short := false |} in
   wants_decode c false (content_encoding (r_ce r)) = Some Gzip /\
   wants_decode c true (bs "br") = Some Br /\
   wants_decode c true (bs "Br") = None /\
